@@ -614,7 +614,7 @@ func TestVerif_C07(t *testing.T) {
 	st := e.st
 	rng := verifRand()
 	dirSrv, pool := c07StartDirectory(t, 2)
-	pa, err := pwldap.New(dirSrv.urls, c07Patterns, 2, pool, st, st.logger)
+	pa, err := pwldap.New(dirSrv.urls, c07Patterns, 3, pool, st, st.logger)
 	if err != nil {
 		t.Fatal(err)
 	}
@@ -630,7 +630,7 @@ func TestVerif_C07(t *testing.T) {
 	nHist := 250
 	maxOps := 10
 	if verifThorough() {
-		nHist, maxOps = 4000, 16
+		nHist, maxOps = 1500, 14
 	}
 	var cases, idx []string
 	run := func(i int, body func(h *c07Hist)) {
